@@ -15,6 +15,15 @@ CHECKS = {
         "arguments and simple values, boundary-dense + random for 32/64-bit, compared with model and with the spec encoder.",
    design="5/C03", technique="Lean 4 proof (case split on width arms + omega) + differential correspondence model/code/spec",
    note="partial: balanced call sequences (ops_denote) and built-in Encode impls are covered under C01/C07 theorems, not here yet"),
+ "C04": dict(
+   text="Lean theorems: on every valid wire tree of the matching shape (any head width, definite or indefinite) followed by arbitrary bytes, the accessors "
+        "bytes/str/array/map/tag/bool/null/undefined/simple and the string iterators return exactly the data-model value and stop exactly at the end of "
+        "what they read (chunks of indefinite strings concatenate to the whole; invalid UTF-8 is rejected); integers via C05.int_accessor_exact. "
+        "Correspondence: wire trees (all scalar shapes x widths x boundaries, containers at every width and indefinite, tags, chunked strings, random trees) x all 25 "
+        "accessors incl. non-matching ones, plus every strict prefix, judged by the property's oracle computed from the tree, and compared with the model.",
+   design="5/C04", technique="Lean 4 proof (head read-back lemmas, induction over chunk lists) + differential correspondence with tree-derived oracle",
+   note="partial: the 'non-matching accessor returns an error' and 'strict prefix -> end-of-input' halves are checked by the correspondence oracle only (theorems pending); "
+        "typed decoding of the ~100 built-in types is exercised in the C01/C02 streams"),
  "C05": dict(
    text="Lean theorem int_accessor_exact: for every accessor type (u8..u64,i8..i64,Int), every sign, every head width and every argument that fits the width, "
         "the model accessor returns the mathematical value and stops right after the head iff the value is representable in the type, and an error otherwise "
